@@ -46,10 +46,12 @@ type AliasCase struct {
 var sentinelPt = orb.Point{-7.77e77, 7.77e77}
 
 type inputGuard struct {
-	views  [][]orb.Point
-	copies [][]orb.Point
-	outers []func() string
-	outer0 []string
+	views    [][]orb.Point
+	copies   [][]orb.Point
+	outers   []func() string // describes an outer slice over its whole capacity
+	outer0   []string
+	outerIn  []func() string // describes the entries within len only
+	outerIn0 []string
 }
 
 func (gd *inputGuard) pts(ps []orb.Point) []orb.Point {
@@ -64,9 +66,11 @@ func (gd *inputGuard) pts(ps []orb.Point) []orb.Point {
 	return full[:len(ps)]
 }
 
-func (gd *inputGuard) watchOuter(f func() string) {
+func (gd *inputGuard) watchOuter(f func() string, within func() string) {
 	gd.outers = append(gd.outers, f)
 	gd.outer0 = append(gd.outer0, f())
+	gd.outerIn = append(gd.outerIn, within)
+	gd.outerIn0 = append(gd.outerIn0, within())
 }
 
 func descPts(ps []orb.Point) string {
@@ -103,6 +107,12 @@ func (gd *inputGuard) layout(g orb.Geometry) orb.Geometry {
 				s += descPts(l) + ";"
 			}
 			return s
+		}, func() string {
+			s := ""
+			for _, l := range full[:len(v)] {
+				s += descPts(l) + ";"
+			}
+			return s
 		})
 		return full[:len(v)]
 	case orb.Polygon:
@@ -120,6 +130,12 @@ func (gd *inputGuard) layout(g orb.Geometry) orb.Geometry {
 				s += descPts(l) + ";"
 			}
 			return s
+		}, func() string {
+			s := ""
+			for _, l := range full[:len(v)] {
+				s += descPts(l) + ";"
+			}
+			return s
 		})
 		return full[:len(v)]
 	case orb.MultiPolygon:
@@ -133,9 +149,9 @@ func (gd *inputGuard) layout(g orb.Geometry) orb.Geometry {
 			}
 		}
 		full[len(v)], full[len(v)+1] = orb.Polygon{{sentinelPt}}, orb.Polygon{{sentinelPt}}
-		gd.watchOuter(func() string {
+		descPolys := func(ps orb.MultiPolygon) string {
 			s := ""
-			for _, p := range full {
+			for _, p := range ps {
 				s += fmt.Sprintf("%d/%d[", len(p), cap(p))
 				for _, r := range p {
 					s += descPts(r) + ";"
@@ -143,7 +159,8 @@ func (gd *inputGuard) layout(g orb.Geometry) orb.Geometry {
 				s += "]"
 			}
 			return s
-		})
+		}
+		gd.watchOuter(func() string { return descPolys(full) }, func() string { return descPolys(full[:len(v)]) })
 		return full[:len(v)]
 	case orb.Collection:
 		if v == nil {
@@ -154,32 +171,43 @@ func (gd *inputGuard) layout(g orb.Geometry) orb.Geometry {
 			full[i] = gd.layout(v[i])
 		}
 		full[len(v)], full[len(v)+1] = sentinelPt, sentinelPt
-		sig := func() string {
+		sig := func(ms orb.Collection) string {
 			s := ""
-			for _, m := range full {
+			for _, m := range ms {
 				sg, bits := gen.Flatten(m)
 				s += fmt.Sprintf("%s:%d;", sg, len(bits))
 			}
 			return s
 		}
-		gd.watchOuter(sig)
+		gd.watchOuter(func() string { return sig(full) }, func() string { return sig(full[:len(v)]) })
 		return full[:len(v)]
 	}
 	return g // nil, Point, Bound: held by value
 }
 
+// check: a change of the input's VALUE (an element within len of any part the caller passed) is a failure; a
+// write into watched spare capacity (sentinel cells beyond len, spare entries of outer slices) is a layout note.
 func (gd *inputGuard) check() error {
 	for i, v := range gd.views {
 		c := gd.copies[i]
+		n := len(v) - 2 // the last two cells are the sentinels beyond len
 		for j := range v {
 			if math.Float64bits(v[j][0]) != math.Float64bits(c[j][0]) || math.Float64bits(v[j][1]) != math.Float64bits(c[j][1]) {
-				return fmt.Errorf("input backing array %d, slot %d of %d: %v became %v", i, j, len(v), c[j], v[j])
+				if j >= n {
+					layoutNote("an encoder wrote into the spare capacity of an input slice")
+					continue
+				}
+				return fmt.Errorf("input backing array %d, element %d of %d: %v became %v (the value the caller passed was modified)", i, j, n, c[j], v[j])
 			}
 		}
 	}
 	for i, f := range gd.outers {
 		if s := f(); s != gd.outer0[i] {
-			return fmt.Errorf("input outer slice %d (incl. spare capacity) changed: %s became %s", i, gd.outer0[i], s)
+			in0, in1 := gd.outerIn[i](), gd.outerIn0[i]
+			if in0 != in1 {
+				return fmt.Errorf("input outer slice %d changed within its length: %s became %s", i, in1, in0)
+			}
+			layoutNote("an encoder wrote into the spare capacity of an input outer slice")
 		}
 	}
 	return nil
